@@ -2,7 +2,7 @@
 """Writes /verif/MANIFEST.json from the table below (kept in one place so it stays valid)."""
 import json, subprocess
 
-REPO_HOOK_COMMITS = ["48f6b6e"]
+REPO_HOOK_COMMITS = ["48f6b6e", "4c5123b"]
 
 CHECKS = {
  "C01": ("random + bounded-exhaustive generation against a character-sequence round-trip oracle",
